@@ -1,18 +1,76 @@
 /-
-  C12 — companion theorems of the thread-pool facts (tools/extractors/pool.py) that tie `C12_pool_instantiation` to the
-  source of the request pool: the facts of `ThreadPool` that the pool model's hand-off of tasks (growth, retirement,
-  accounting, lock discipline) encodes — the same facts C09 is tied by.
-  Built and audited separately from JRV.Properties.C12: a source edit that changes one of these facts fails this module only.
+  C12 — companion theorems of the facts extracted from the source (tools/extractors/serverlife.py, pool.py,
+  footprint.py).  Built and audited separately from JRV.Properties.C12: a source edit that changes one fact fails
+  that companion only (the property theorems stay discharged and the evidence says which fact no longer matches).
 -/
+import JRV.Model.ServerLife
 import JRV.Model.Pool
+import JRV.Properties.C12
 import JRV.Generated
 
 namespace JRV.Props
-open JRV
+open JRV.SL
 
+/-- Tie to the source: the body of PooledJSONRPCServer.server_close / serve_forever / process_request
+    (`try: … finally: …` without handlers is read as the sequence it executes). -/
+theorem C12_gen_serverClose : Generated.pooledServerClose = some ["if-serving:shutdown", "server_close", "pool.stop"] := by decide
+theorem C12_gen_serveFlag : Generated.pooledServeForeverSetsFlag = some (true, true) := by decide
+theorem C12_gen_processRequest : Generated.pooledProcessRequestEnqueues = some true := by decide
+
+/-- Tie of `C12_pool_instantiation` to the source of the request pool: the facts of `ThreadPool` that the pool model's
+    hand-off of tasks (growth, retirement, accounting, lock discipline) encodes — the same facts C09 is tied by. -/
 theorem C12_gen_poolRetireRule : Generated.poolRetireRule = some JRV.Pool.retireRuleSpec := by decide
 theorem C12_gen_poolGrowthRule : Generated.poolGrowthRule = some JRV.Pool.growthRuleSpec := by decide
 theorem C12_gen_poolPendingStores : Generated.poolPendingStores = some JRV.Pool.pendingStoresSpec := by decide
 theorem C12_gen_poolUnlockedAccesses : Generated.poolUnlockedAccesses = some JRV.Pool.unlockedAccessesSpec := by decide
+
+/-- The shared dispatcher cell of the model is never written because the serve path of the source makes no store into
+    shared state: the write footprint of every function reachable from `_marshaled_dispatch` (the fact C13 is built
+    on) is empty. -/
+theorem C12_gen_sharedWrites : Generated.servePathSharedWrites = some [] := by decide
+
+/-- The `except` clause around the method call in `_dispatch` and the one around the whole exchange in `do_POST`
+    catch every `BaseException` (they are bare) and do not re-raise: `Cfg.catchAll`. -/
+theorem C12_gen_catchAll : Generated.servePathCatchAll = some (true, true) := by decide
+
+/-- The model configuration that the extracted facts stand for. -/
+def cfgOfFacts (plain : Bool) : Option Cfg := do
+  let fp ← Generated.servePathSharedWrites
+  let ca ← Generated.servePathCatchAll
+  pure { plain := plain, sharedWrites := !fp.isEmpty, catchAll := ca.1 && ca.2 }
+
+/-- … is the one the hypotheses of `C12_isolation` (`sharedWrites = false`) and `C12_survives` (`catchAll = true`) ask
+    for, for the plain and for the pooled server. -/
+theorem C12_gen_cfg (plain : Bool) :
+    cfgOfFacts plain = some { plain := plain, sharedWrites := false, catchAll := true } := by
+  cases plain <;> decide
+
+/-- `C12_isolation` with its hypothesis discharged from the source. -/
+theorem C12_gen_isolation (plain : Bool) (cfg : Cfg) (hcfg : cfgOfFacts plain = some cfg) (f : Nat → Nat → Nat)
+    (s : State) (h : Reach cfg f s) (i : Nat) (c : Conn) (hc : s.conns[i]? = some c) :
+    c.reply = none ∨ c.reply = some (replyOf f 0 c.kind c.body) := by
+  rw [C12_gen_cfg] at hcfg
+  cases hcfg
+  exact (C12_isolation _ f rfl s h i c hc).2
+
+/-- `C12_survives` with its hypothesis discharged from the source. -/
+theorem C12_gen_survives (plain : Bool) (cfg : Cfg) (hcfg : cfgOfFacts plain = some cfg) (f : Nat → Nat → Nat)
+    (s : State) (h : Reach cfg f s) (hloop : s.spc = .loop) (hopen : s.socketOpen = true) (hpool : s.poolStopped = false)
+    (i : Nat) (c : Conn) (hc : s.conns[i]? = some c) (hrun : c.phase = .running) (hka : c.keepAlive = false) :
+    ∃ s1, step? cfg f s (.handlerFinish i) = some s1 ∧
+      (s1.conns[i]?).map (·.reply) = some (some (replyOf f 0 c.kind c.body)) ∧
+      (Ready cfg s1 → ∀ b k, ∃ s2, run cfg f s1 (serveOne cfg s1.conns.length b k) = some s2 ∧ Ready cfg s2 ∧
+        (s2.conns[s1.conns.length]?).map (·.reply) = some (some (replyOf f 0 k b))) := by
+  rw [C12_gen_cfg] at hcfg
+  cases hcfg
+  have hd := (C12_isolation _ f rfl s h i c hc).1
+  obtain ⟨s1, hs1, hrep, _, hnext⟩ := C12_survives _ f rfl s h hloop hopen hpool i c hc hrun hka
+  have hd1 : s1.disp = 0 := by
+    obtain ⟨s1', hs1', _, _, _, _, _, _, _, _, _, _, hdisp, _⟩ := C12_failure_is_local _ f rfl s h i c hc hrun
+    rw [hs1] at hs1'; cases hs1'; rw [hdisp, hd]
+  refine ⟨s1, hs1, by simpa [hd] using hrep, ?_⟩
+  intro hr b k
+  obtain ⟨s2, hs2, hr2, hrep2⟩ := hnext hr b k
+  exact ⟨s2, hs2, hr2, by simpa [hd1] using hrep2⟩
 
 end JRV.Props
